@@ -23,7 +23,7 @@ bits are distinct); LPC code run by a command is an oracle `Scripts` plus fuel. 
 The network between the test clients and the driver is part of the model (`Net`): one accept per cycle per listening
 port (level-triggered poll), one recv per readable user per cycle, EOF seen by the first recv that finds no data.
 Out of the model (see notes/C12.md): buffer compaction/overflow rules of get_user_data (C13), `!` shell escapes, ed,
-telnet negotiation bytes, errors thrown by commands.
+telnet negotiation bytes.  Uncaught errors thrown by commands ARE modelled (`Op.err`, `cycleRun`).
 -/
 import NV.Gen.C12
 
@@ -35,8 +35,8 @@ abbrev DEL : Char := Char.ofNat 127
 abbrev CR : Char := Char.ofNat 13
 abbrev LF : Char := Char.ofNat 10
 
-/-- the table grows by this many slots (literal `50` in new_interactive) -/
-def growBy : Nat := 50
+/-- the table grows by this many slots (`new_max_users = max_users + N` in new_interactive, regenerated) -/
+def growBy : Nat := NV.Gen.C12.growBy
 
 /-- what a scripted command does (harness/mudlib/c12/user.c `do_op`) -/
 inductive Op where
@@ -45,6 +45,8 @@ inductive Op where
   | ecmd (t : Nat) (text : List Char)   -- t->force(text): command(text) in t
   | gc                                  -- get_char("got_char")
   | it                                  -- input_to("got_line")
+  | err                                 -- error("c12-throw"): an uncaught LPC error, longjmp to the top of backend()
+  | exec                                -- exec(new body, current body of this user): the connection moves to another object
   deriving Repr, BEq, DecidableEq
 
 /-- harness actions (case lines) -/
@@ -74,6 +76,9 @@ inductive Ev where
   | gc (u : Nat) (r : Bool)
   | it (u : Nat) (r : Bool)
   | endc (n : Nat) (max : Nat) (layout : List (Nat × Nat × Nat))   -- (slot, user, masked iflags)
+  | err (u : Nat)                    -- the script of user `u` raises an uncaught LPC error
+  | exec (u : Nat) (r : Bool)        -- exec() moved the interactive of user `u` to a fresh object (r = it had one)
+  | abort (n : Nat)                  -- iteration `n` of backend() was left by longjmp (no heart beat, no hook): the loop restarts
   | crash (what : String)
   | other (line : String)            -- only produced by the trace parser: a line that is no event
   deriving Repr, BEq, DecidableEq
@@ -117,6 +122,7 @@ structure World where
   naccepted : Nat := 0                -- connections accepted so far (users are numbered in accept order)
   cycle : Nat := 0
   crashed : Bool := false
+  thrown : Bool := false              -- an uncaught LPC error is unwinding to `setjmp (econ.context)` in backend()
 
 def World.maxUsers (w : World) : Nat := w.slots.length
 /-- the user object exists (created when the connection was accepted) and was not destructed -/
@@ -166,9 +172,9 @@ def reframe (b : List Char) : List Char := reframeAux false b
 def removeUser (slots : List (Option Nat)) (u : Nat) : List (Option Nat) :=
   slots.map (fun s => if s == some u then none else s)
 
-/-- `for (i = 1; i < max_users; i++) if (!all_users[i]) break;` -/
+/-- `for (i = 1; i < max_users; i++) if (!all_users[i]) break;` (the start index is regenerated: `Gen.firstUserSlot`) -/
 def newSlot (slots : List (Option Nat)) : Nat :=
-  go (slots.drop 1) 1
+  go (slots.drop NV.Gen.C12.firstUserSlot) NV.Gen.C12.firstUserSlot
 where
   go : List (Option Nat) → Nat → Nat
     | [], i => i
@@ -210,6 +216,10 @@ def connectedUsers (w : World) : Nat := (w.slots.filter (fun s => NV.Gen.C12.cou
 
 def hasPending (w : World) : Bool :=
   w.slots.any (fun s => match s with | some u => (w.users.get u).cmdInBuf | none => false)
+
+/-- backend asks the poller to block: `timeout.tv_sec` (regenerated) is not zero; the heart-beat flag is off in the
+    harness (timer flags cleared) -/
+def pollBlocks (pending : Bool) : Bool := NV.Gen.C12.pollTimeout false pending != 0
 
 /-! ### get_user_command -/
 
@@ -291,7 +301,11 @@ def runOps (sc : Scripts) : Nat → World → Nat → List Op → World × List 
         else (w, [Ev.force me t text false])
       | .gc => let (w', r) := setCall w me true; (w', [Ev.gc me r])
       | .it => let (w', r) := setCall w me false; (w', [Ev.it me r])
-    if w1.alive me then
+      | .err => ({ w with thrown := true }, [Ev.err me])
+      -- replace_interactive: the interactive_t (slot, iflags, text buffer) is handed to the new object untouched
+      | .exec => (w, [Ev.exec me (w.alive me && w.interactive me)])
+    if w1.thrown then (w1, e1)        -- the error unwinds every frame: nothing after it runs
+    else if w1.alive me then
       let (w2, e2) := runOps sc f w1 me rest
       (w2, e1 ++ e2)
     else (w1, e1)
@@ -309,7 +323,7 @@ def endInput (us : U) : U :=
 
 /-- process_user_command: `true` = a command was processed -/
 def processUserCommand (sc : Scripts) (w : World) : World × List Ev × Bool :=
-  if w.crashed then (w, [], false) else
+  if w.crashed || w.thrown then (w, [], false) else    -- (thrown: the loop of backend() was left by the longjmp)
   match getUserCommand w with
   | (w1, none) => (w1, [], false)
   | (w1, some (u, text)) =>
@@ -339,8 +353,40 @@ def cycleStep (sc : Scripts) (w : World) : World × List Ev :=
   let w1 := { w with cycle := n, users := grantAll w.users w.slots }
   let (w2, e2) := processIO w1
   let (w3, e3) := cmdLoop sc (NV.Gen.C12.loopCalls cu w.maxUsers) w2
-  (w3, [Ev.begin n, Ev.poll n (!pending)] ++ e2 ++ e3 ++
-        (if w3.crashed then [Ev.crash "all_users[s_next_user] out of range"] else [Ev.endc n w3.maxUsers (layout w3)]))
+  (w3, [Ev.begin n, Ev.poll n (pollBlocks pending)] ++ e2 ++ e3 ++
+        (if w3.crashed then [Ev.crash "all_users[s_next_user] out of range"]
+         else if w3.thrown then [Ev.abort n] else [Ev.endc n w3.maxUsers (layout w3)]))
+
+/-! ### uncaught errors: the aborted iteration and the restart of the loop
+
+An LPC error that no `catch` handles leaves process_user_command() by `longjmp` to `setjmp (econ.context)` in backend():
+the rest of the iteration (remaining commands, heart beat, the verification hook) is skipped and the `while (1)` loop
+starts its next iteration at once - turns are granted again to everybody, poll, process_io, command loop.  The static
+cursor keeps its value (it was already stepped past the user whose command threw), the thrown command stays consumed.
+The harness sees the restart through the second poll of one hook period.
+
+Every aborted iteration has served a buffered command, which strictly lowers `weight` (Lemmas4.lean), so
+`weight w + 1` iterations always suffice; running out of this fuel is the explicit outcome `crash`. -/
+
+/-- weighted size of buffered text: CR and LF count twice (reframing CR LF yields three bytes) -/
+def wlen (b : List Char) : Nat := (b.map (fun c => if c == CR || c == LF then 2 else 1)).sum
+
+def usersWeight (m : AMap U) : Nat := (m.map (fun e => wlen e.2.buf)).sum
+def netWeight (m : AMap Net) : Nat := (m.map (fun e => 4 * e.2.rx.length)).sum
+
+/-- bytes that can still become commands: buffered text and unread client data (at most 4 weight units per byte) -/
+def weight (w : World) : Nat := usersWeight w.users + netWeight w.net
+
+/-- the iterations of backend() between two hook calls: restart after every aborted one -/
+def cycleRun (sc : Scripts) : Nat → World → World × List Ev
+  | 0, w => ({ w with crashed := true }, [Ev.crash "restart bound of the model exhausted"])
+  | f + 1, w =>
+    match cycleStep sc w with
+    | (w1, e1) =>
+      if w1.thrown then
+        let (w2, e2) := cycleRun sc f { w1 with thrown := false }
+        (w2, e1 ++ e2)
+      else (w1, e1)
 
 /-- one harness action -/
 def step (sc : Scripts) (w : World) (c : Cmd) : World × List Ev :=
@@ -355,7 +401,7 @@ def step (sc : Scripts) (w : World) (c : Cmd) : World × List Ev :=
     if u ≥ 1 && u ≤ w.naccepted && !(w.net.get u).eof then
       ({ w with net := upd w.net u { w.net.get u with eof := true } }, if w.interactive u then [Ev.close u] else [])
     else (w, [])
-  | .cycle => cycleStep sc w
+  | .cycle => cycleRun sc (weight w + 1) w
 
 def run (sc : Scripts) : World → List Cmd → World × List Ev
   | w, [] => (w, [])
